@@ -262,7 +262,9 @@ def save_found(pid, casefile):
     d = os.path.join(VERIF, "replays", pid)
     os.makedirs(d, exist_ok=True)
     data = file_bytes(casefile)
-    dst = os.path.join(d, "found-%s.case" % sha(data))
+    # name by symptom + rendered case, so that shards that shrank to the same input share one file
+    key = b"\n".join(l for l in data.splitlines() if l.startswith(b"symptom=") or l.startswith(b"# case:")) or data
+    dst = os.path.join(d, "found-%s.case" % sha(key))
     with open(dst, "wb") as f:
         f.write(data)
     return dst
@@ -454,9 +456,11 @@ def run_check(pid, tier, seed):
                 if os.path.exists(os.path.join(shr, "found.case")):
                     case = os.path.join(shr, "found.case")
             dst = save_found(pid, case)
+            if any(v[0] == dst for v in violations):
+                continue  # several shards shrank to the same case
             bad, outs = confirm(binary, dst, env, extra_args)
             if bad:
-                violations.append((dst, outs[0][1] + "\n--- shard log tail ---\n" + s.log_tail(30)))
+                violations.append((dst, outs[0][1]))
             else:
                 unreproduced += 1
                 log("[warn] %s: failing case %s did not reproduce on replay (harness problem, not reported)" % (pid, dst))
@@ -513,8 +517,13 @@ def baseline_off():
         dst = os.path.join(d, "repo")
         shutil.copytree(REPO, dst, symlinks=True, ignore=shutil.ignore_patterns("_build", ".git"))
         b = os.path.join(dst, "_build")
-        subprocess.check_call(["cmake", "-G", "Ninja", "-S", dst, "-B", b], stdout=subprocess.DEVNULL)
+        subprocess.check_call(["cmake", "-G", "Ninja", "-DCMAKE_BUILD_TYPE=RelWithDebInfo", "-DBUILD_TESTING=ON", "-S", dst, "-B", b], stdout=subprocess.DEVNULL)
         subprocess.check_call(["cmake", "--build", b], stdout=subprocess.DEVNULL)
+        # the test executables are EXCLUDE_FROM_ALL (upstream builds them through "make check")
+        tl = subprocess.run(["ninja", "-C", b, "-t", "targets", "all"], stdout=subprocess.PIPE).stdout.decode()
+        names = sorted({l.split(":")[0] for l in tl.splitlines() if l.startswith("tst-") and l.endswith(": phony")})
+        if names:
+            subprocess.check_call(["cmake", "--build", b, "--target"] + names, stdout=subprocess.DEVNULL)
         r = subprocess.run(["ctest", "--test-dir", b, "-j8", "--timeout", "900"], stdout=subprocess.PIPE,
                            stderr=subprocess.STDOUT)
         out = r.stdout.decode(errors="replace")
